@@ -229,6 +229,34 @@ func devirtualiseThunkCalls(fn *ssa.Function) int {
 			if cc.IsInvoke() {
 				continue
 			}
+			// a function value converted to a named function type (boltCursorMove(f)) is called as f
+			for {
+				ct, isCT := cc.Value.(*ssa.ChangeType)
+				if !isCT {
+					break
+				}
+				switch ct.X.(type) {
+				case *ssa.Function, *ssa.MakeClosure:
+				default:
+					isCT = false
+				}
+				if !isCT {
+					break
+				}
+				if refs := ct.Referrers(); refs != nil {
+					for i, r := range *refs {
+						if r == in {
+							*refs = append((*refs)[:i:i], (*refs)[i+1:]...)
+							break
+						}
+					}
+				}
+				if refs := ct.X.Referrers(); refs != nil {
+					*refs = append(*refs, in)
+				}
+				cc.Value = ct.X
+				n++
+			}
 			th, _ := cc.Value.(*ssa.Function)
 			if th == nil || !strings.HasPrefix(th.Synthetic, "thunk") || len(th.Blocks) != 1 || len(th.FreeVars) != 0 || len(th.Params) == 0 || len(cc.Args) != len(th.Params) {
 				continue
